@@ -253,7 +253,7 @@ def B1(inp, kind, k, first=None):
                vars=dict(kind=kind, ops=[t[0] for t in trace]))
 
 
-@obligation('B2', props=('C15', 'C09'), quick=[dict(kind=k) for k in ('list', 'dict', 'set', 'counter', 'queue', 'pqueue', 'lock')],
+@obligation('B2', props=('C15', 'C09', 'C16'), quick=[dict(kind=k) for k in ('list', 'dict', 'set', 'counter', 'queue', 'pqueue', 'lock')],
             stubs=('none',), bounds='source contents of 0..2 symbolic elements (empty and zero included), target battery holding 0..2 stale elements')
 def B2(inp, kind):
     """consumer snapshot round trip: _deserialize(_serialize(x)) into a battery that already holds other (stale) contents
@@ -577,3 +577,28 @@ def B3(inp, k, mid):
     cl['middle_get_is_minimum_so_far'] = And([got[0] <= x for x in xs[:mid]]) if got else True
     cl['same_multiset'] = And([Eq(Count([Eq(x, v) for x in xs]), Count([Eq(y, v) for y in allout])) for v in range(10)]) if len(allout) == k else False
     return Res(cl, nontrivial=True, obs=lambda: dict(puts=show(xs), mid=mid, out=show(allout)))
+
+
+@obligation('K4', props=('C16',), quick=[dict()], stubs=('lock table behind the manager: real _ReplLockManagerImpl whose replicated release/acquire are recorded instead of submitted',),
+            bounds='local table shows the lock as held by the caller, by someone else, or not at all (the caller\'s own acquire may still be in flight)')
+def K4(inp):
+    """release() always issues the replicated release for exactly that lock and client - also when the local replica does not
+    (yet) show the caller as holder - so a lock whose acquisition was still in flight cannot stay held for ever."""
+    m = object.__new__(bt.ReplLockManager)
+    impl = bt._ReplLockManagerImpl(10.0)
+    view = inp.choice('local_view', 3)
+    if view == 1:
+        impl._ReplLockManagerImpl__locks['L'] = ('me', inp.real('t0'))
+    elif view == 2:
+        impl._ReplLockManagerImpl__locks['L'] = ('other', inp.real('t0'))
+    calls = []
+    impl.release = lambda lockID, clientID, callback=None, sync=False, timeout=None: calls.append((lockID, clientID, sync))
+    m._ReplLockManager__lockImpl = impl
+    m._ReplLockManager__selfID = 'me'
+    m._ReplLockManager__autoUnlockTime = 10.0
+    got = []
+    _, exc = guard(m.release, 'L', callback=lambda r, e: got.append((r, e)))
+    cl = {'no_exception': exc is None}
+    cl['replicated_release_issued_once'] = calls == [('L', 'me', False)]
+    cl['no_local_shortcut_answer'] = got == []
+    return Res(cl, nontrivial=view != 1, obs=lambda: dict(view=view, calls=calls, got=show(got), exc=show(exc)))
